@@ -402,7 +402,9 @@ class SimNxp(object):
             m[4 * page:4 * page + 4] = data
         self.log.append((ap, bytes(data), before))
         if self.latch == "immediate":
+            lck = self.eff["cfglck"]                # CFGLCK is taken over at power-up only
             self._latch()
+            self.eff["cfglck"] = lck
         if self.cut_after is not None and len(self.log) >= self.cut_after:
             self.powered = False
         return "WRITE", ap, ACK
